@@ -131,8 +131,17 @@ def matrix(draw, classes=None, tscale=None):
         M = _hom(L, _translation(draw, ts))
     elif cls == "general_affine":
         # product of rotation, well conditioned diagonal (possibly negative), rotation
-        d = [draw(st.one_of(_f(0.2, 0.8), _f(1.25, 5.0))) * draw(st.sampled_from([1.0, 1.0, -1.0])) for _ in range(3)]
-        L = draw(rot3()) @ np.diag(d) @ draw(rot3())
+        if draw(st.integers(0, 2)) == 0:
+            # a skew basis whose three columns have the same length (rhombohedral / hexagonal lattice basis): not
+            # conformal although every "are the axes scaled alike" shortcut says so
+            a = draw(st.sampled_from([0.25, 0.5, -0.3, 0.8]))
+            L0 = np.eye(3) + a * (np.ones((3, 3)) - np.eye(3))
+            L = draw(st.sampled_from([1.0, 0.5, 3.0])) * (draw(rot3()) @ L0)
+            if draw(st.booleans()):
+                L = L @ np.diag([1.0, 1.0, -1.0])
+        else:
+            d = [draw(st.one_of(_f(0.2, 0.8), _f(1.25, 5.0))) * draw(st.sampled_from([1.0, 1.0, -1.0])) for _ in range(3)]
+            L = draw(rot3()) @ np.diag(d) @ draw(rot3())
         M = _hom(L, _translation(draw, ts))
     elif cls == "near_identity":
         # delta log-uniform in [1e-10, 1e-4] : populates both sides of the 1e-8 and 1e-6 shortcuts
